@@ -178,7 +178,15 @@ impl Property for C10 {
         // keeps per distinct row grows, moves, is reorganised), most redeliveries being of
         // records that were first seen a moment ago
         let many = rng.chance(1, 8);
-        let n = if many { rng.range(34, 46) } else { rng.range(1, max) };
+        // ... and one in two hundred a very long one (hundreds of distinct rows)
+        let very_many = many && rng.chance(1, 25);
+        let n = if very_many {
+            rng.range(300, 1300)
+        } else if many {
+            rng.range(34, 46)
+        } else {
+            rng.range(1, max)
+        };
         // identities: tuple table
         let mut tuples: Vec<(i64, i64, u32)> = Vec::new();
         let mut order: Vec<usize> = Vec::new(); // delivery order as indices into tuples
